@@ -313,7 +313,7 @@ def h_metadata_only(P, G, klen, opts):
     return body
 
 
-def h_heuristic(klen, nsym, P=None, rich=False):
+def h_heuristic(klen, nsym, P=None, rich=0, keysym=None):
     """the REAL key-candidate heuristic at the REAL patch size (no stub, no scaling), symbolic environmental key: for a
     zero-padded configuration the candidates offered up to key length k contain the true key (composes with h_recover, where the
     true key among the candidates implies recovery). collections.Counter -> SymCounter (equality classes of n-grams decided)."""
@@ -327,7 +327,10 @@ def h_heuristic(klen, nsym, P=None, rich=False):
             plain += CB.rec(9, CB.PTR, [0x41] * int(rich))
         plain += [0, 0]
         plain += [0] * (Pz - len(plain))
-        key = sym_bytes("envkey", klen)
+        key = sym_bytes("envkey", klen if keysym is None else keysym)
+        if keysym is not None:
+            # long keys: the first `keysym` bytes symbolic, the rest concrete and pairwise distinct (keeps the n-gram classes decidable)
+            key = SymBytes(key.cells + [(0x11 + 7 * i) % 251 + 1 for i in range(klen - keysym)])
         # validity predicate: the key is primitive (no proper period: a key abab IS the 2-byte key ab) and has no zero byte
         # pattern that makes a shorter candidate an equivalent mask
         conds = []
@@ -418,10 +421,17 @@ def instances(tier):
         i.native_patches = native_patches(24, G)
         out.append(i)
     # the real n-gram heuristic at the real patch size with a symbolic key (zero-padded configuration family)
-    import os as _os
-    for klen, nsym in () if not _os.environ.get('VERIF_C17_HEUR') else (((3, 1), (5, 0)) if q else ((2, 2), (3, 2), (4, 1), (5, 1), (6, 1), (7, 1), (9, 0), (12, 0))):
-        out.append(Instance("real heuristic offers the true key: key=%d symbolic content bytes=%d" % (klen, nsym), h_heuristic(klen, nsym),
-                            dict(kind="heuristic", P=guardrails.BEACON_CONFIG_PATCH_SIZE, keylen=klen, symbolic_content_bytes=nsym, cost=800), split=8, max_loop=20000))
+    # the REAL n-gram heuristic (no stub) with a symbolic key: zero-padded configuration families at the real patch size, and the
+    # longest documented key (256 bytes) on a 768-byte area
+    PZ = guardrails.BEACON_CONFIG_PATCH_SIZE
+    fam = ((3, 0, PZ, 0, None), (3, 0, PZ, 2100, None), (256, 0, 768, 0, 1)) if q else \
+          ((2, 0, PZ, 0, None), (3, 1, PZ, 0, None), (4, 0, PZ, 0, None), (5, 0, PZ, 0, None), (3, 0, PZ, 2100, None), (5, 0, PZ, 2100, None), (3, 0, PZ, 4000, None),
+           (255, 0, 768, 0, 1), (256, 0, 768, 0, 2))
+    for klen, nsym, Pz, rich, keysym in fam:
+        out.append(Instance("real heuristic offers the true key: key=%d area=%d settings=%d symbolic content bytes=%d" % (klen, Pz, rich, nsym),
+                            h_heuristic(klen, nsym, Pz, rich, keysym),
+                            dict(kind="heuristic", area=Pz, keylen=klen, settings_bytes=rich, symbolic_content_bytes=nsym,
+                                 symbolic_key_bytes=klen if keysym is None else keysym, cost=800), split=8, max_loop=20000))
     for n in ((0, 1, 5, 24, 64) if q else (0, 1, 2, 3, 5, 24, 64, 512, 6144)):
         out.append(Instance("payload_checksum over %d bytes" % n, h_checksum(n), dict(kind="checksum", bytes=n), max_loop=7000))
     return out
